@@ -50,6 +50,34 @@ def run_case(ctx, mr, case):
         name, mk, parts = schemes[2]
     ctx.stat('cmac_' + name)
     ctx.stat('kind_' + geom['kind'])
+    # the DPFS level below the hash tree has a Coq model of its write path (Model/DpfsWrite.v): same writes on the raw two-copy area
+    c0, bio0 = sc.open_container(img, geom['kind'])
+    for pi, ip in enumerate(info['partitions']):
+        (o1, s1), (o2, s2), (o3, s3) = ip['dpfs_areas']
+        bs3 = ip['dpfs_block_sizes'][2]
+        f3 = c0.partitions[pi].dpfs_lv3_file
+        ws, counts = [], []
+        for _ in range(rng.randrange(1, 5)):
+            pos = rng.choice([0, 1, bs3 - 1, bs3, rng.randrange(s3 + 1), max(0, s3 - 2), s3, s3 + 5])
+            data = pyenv.rbytes(rng, rng.choice([1, 2, bs3 - 1, bs3, bs3 + 1, 2 * bs3 + 3, rng.randrange(1, s3 + 9)]))
+            f3.seek(pos)
+            at = f3.tell()
+            counts.append(zhex(f3.write(data)))
+            ws.append((at, data))
+        line = 'dpfswrite %s %x %s %s %s %s %s ' % (hx(img[o1:o1 + 2 * s1]), ip['dpfs_selector'], hx(img[o2:o2 + 2 * s2]), zhex(ip['dpfs_block_sizes'][1]),
+                                                  hx(img[o3:o3 + 2 * s3]), zhex(s3), zhex(bs3)) + ' '.join('%s,%s' % (zhex(p_), hx(d_)) for p_, d_ in ws)
+        mcounts, marea = mr.ask(line).split(' | ')
+        after = bio0.getvalue()
+        if mcounts.split(' ') != counts or unhx(marea) != after[o3:o3 + 2 * s3]:
+            ctx.diff('corr', 'dpfs-write-model', dict(case, part=pi, writes=[(p_, d_.hex()) for p_, d_ in ws]), mcounts, ' '.join(counts),
+                     'DPFS level-3 write: Coq model and implementation differ (returned counts or bytes of the two-copy area)')
+        if after[:o3] != img[:o3] or after[o3 + 2 * s3:] != img[o3 + 2 * s3:]:
+            ctx.diff('oracle', 'dpfs-write-frame', dict(case, part=pi), 'unchanged', 'changed', 'a write through the DPFS level-3 file changed bytes outside its two-copy area')
+        ctx.stat('dpfs_write_model', len(ws))
+        img0 = after          # the next partition is compared against what this one left
+        img = after
+    c0.close()
+    img, info, payloads = sc.build(geom)
     # read-only container: the write is refused and nothing changes
     c, bio = sc.open_container(img, geom['kind'], writable=False)
     r = sc.lv4_reader(c, 0)
@@ -226,7 +254,7 @@ def run_cases(ctx, cases):
 
 
 def run(ctx):
-    proof = prove('C18', [], ['C18_props'], static_deps=['Proofs/IvfcWriteProofs.v', 'Proofs/IvfcProofs.v'])
+    proof = prove('C18', [], ['C18_props'], static_deps=['Proofs/IvfcWriteProofs.v', 'Proofs/IvfcProofs.v', 'Proofs/DpfsWriteProofs.v', 'Proofs/DpfsProofs.v', 'Proofs/BlocksProofs.v'])
     run_cases(ctx, gen_cases(ctx, ctx.rng))
 
     def search():
